@@ -301,10 +301,12 @@ class DULServiceProvider(threading.Thread):
         if self.dul_socket is None:
             return False
 
-        # wait for remote connection to close
+        # wait for remote connection to close, without blocking the event loop
         try:
-            while self.dul_socket.recv(1) != b'':
-                continue
+            if not select.select([self.dul_socket], [], [], 0.05)[0]:
+                return False
+            if self.dul_socket.recv(1) != b'':
+                return False  # peer is still sending: keep waiting
         except socket.error:
             return False
 
